@@ -18,9 +18,20 @@ Init == pid \in DOMAIN Batch /\ pi \in DOMAIN Batch[pid].plans
 Next == UNCHANGED vars
 Spec == Init /\ [][Next]_vars
 
+\* the metric cannot be evaluated because it reads a fluent without a value (DESIGN.md 7.1-5: whether
+\* such a plan is reported VALID without a value or INVALID is left open by the documentation)
+MetricUndef(p, rec, S) ==
+   LET m == Batch[p].P.metric
+       last == S[Len(S)]
+   IN CASE m.kind = "oversub" -> \E i \in DOMAIN m.goals : IsU(Eval(R(p), m.goals[i].g, last, <<>>))
+        [] m.kind \in {"minfinal", "maxfinal"} -> IsU(Eval(R(p), m.expr, last, <<>>))
+        [] m.kind = "costs" -> IsU(MetricValue(m, R(p), rec.steps, S))
+        [] OTHER -> FALSE
+
 Clause(p, rec) ==
    LET v == SeqVerdict(R(p), rec.steps) IN
    IF v.v = "unspec" THEN "U"
+   ELSE IF v.v = "VALID" /\ MetricUndef(p, rec, v.S) THEN "U"
    ELSE IF rec.status \notin {"VALID", "INVALID"} THEN "raises-" \o rec.status \o "-spec-" \o v.v \o "-" \o v.why
    ELSE IF rec.status # v.v THEN "status-spec-" \o v.v \o "-" \o v.why \o "-impl-" \o rec.status
    ELSE IF v.v = "VALID" /\ Batch[p].P.metric.kind # "none"
